@@ -529,8 +529,38 @@ func (v *Value) EqualValueTo(other *Value) bool {
 	// TODO(flosch): As of Go 1.20, reflect supports Comparable() and Equal(). This should potentially
 	// be used here: https://pkg.go.dev/reflect#Value.Comparable
 	return v.val.CanInterface() && other.val.CanInterface() &&
-		v.val.Type().Comparable() && other.val.Type().Comparable() &&
+		isComparable(v.val) && isComparable(other.val) &&
 		v.Interface() == other.Interface()
+}
+
+// isComparable reports whether comparing v.Interface() with == cannot panic. Unlike
+// Type().Comparable() it looks at what interfaces (also those inside arrays and
+// structs) hold: an [2]any or a struct with an any field is only comparable if
+// the values stored in it are.
+func isComparable(v reflect.Value) bool {
+	switch v.Kind() {
+	case reflect.Invalid:
+		return true
+	case reflect.Func, reflect.Map, reflect.Slice:
+		return false
+	case reflect.Interface:
+		return isComparable(v.Elem())
+	case reflect.Array:
+		for i := 0; i < v.Len(); i++ {
+			if !isComparable(v.Index(i)) {
+				return false
+			}
+		}
+		return true
+	case reflect.Struct:
+		for i := 0; i < v.NumField(); i++ {
+			if !isComparable(v.Field(i)) {
+				return false
+			}
+		}
+		return true
+	}
+	return true
 }
 
 // fieldByName returns the struct field with the given name like reflect's FieldByName,
